@@ -54,6 +54,12 @@ EXTENDS Integers, Sequences, FiniteSets, TLC
 \* so with the deviation the receiver gets the altered message.  Over a connection a message
 \* is what it was when the send returned: FALSE for the specification proper.
 CONSTANT HandsOverSendersMessage
+
+\* Deviation (refuted in MC, WrapMC_latesethdr.cfg): SetHeader after the headers have gone out
+\* (explicit SendHeader, first message, single response) still joins its metadata into what
+\* the client reads with Header().  A server refuses such a SetHeader and its metadata never
+\* reaches the client: FALSE for the specification proper.
+CONSTANT LateSetHeaderJoins
 Altered == 95
 Delivered(v) == IF HandsOverSendersMessage THEN Altered ELSE v
 
@@ -89,7 +95,7 @@ New(shape, req) ==
    ret |-> FALSE, rcode |-> "", rv |-> 0,
    cx |-> "no", retAtCx |-> FALSE, entAtCx |-> FALSE, sawCx |-> FALSE, waited |-> FALSE, hlate |-> {}, sfl |-> FALSE, hcx |-> 0, cause |-> FALSE,
    pend |-> "-", term |-> NoTerm, src |-> "-", mdk |-> 0,
-   msgs |-> <<>>, hdrs |-> <<>>, trls |-> <<>>, srecv |-> <<>>]
+   msgs |-> <<>>, hdrs |-> <<>>, trls |-> <<>>, srecv |-> <<>>, shdr |-> <<>>]
 
 ----------------------------------------------------------------------------
 (* Semantics                                                               *)
@@ -166,7 +172,11 @@ ServerOp(st, e, i) ==
            THEN [st EXCEPT !.srecv = Append(@, [i |-> i, v |-> IF e.c = "invoke" THEN e.v ELSE Delivered(e.v)]), !.ent = TRUE]
                 \* (Invoke returns when the call is over: its request cannot be reused during the call)
            ELSE [st EXCEPT !.srecv = Append(@, [i |-> i, v |-> 0]), !.seof = TRUE]     \* after the half-close
-      [] e.s = "sethdr" -> [st EXCEPT !.hs = AddMD(@, e.md)]
+      \* SetHeader is an error once the headers have gone out, and then changes nothing
+      [] e.s = "sethdr" ->
+           IF ~st.hsent THEN [st EXCEPT !.hs = AddMD(@, e.md), !.shdr = Append(@, [i |-> i, err |-> FALSE])]
+           ELSE IF LateSetHeaderJoins THEN [st EXCEPT !.hvis = AddMD(@, e.md), !.shdr = Append(@, [i |-> i, err |-> FALSE])]
+           ELSE [st EXCEPT !.shdr = Append(@, [i |-> i, err |-> TRUE])]
       [] e.s = "sendhdr" -> Flush([st EXCEPT !.hs = AddMD(@, e.md)])
       [] e.s = "settrl" -> [st EXCEPT !.tr = AddMD(@, e.md)]
       [] e.s = "send" ->
@@ -234,7 +244,7 @@ Run(shape, req, mdk, steps) == RunFrom({[New(shape, req) EXCEPT !.mdk = mdk]}, s
 
 \* the transcript of a final state; reqmd is asserted when the handler certainly started
 Transcript(st) ==
-  [msgs |-> st.msgs, term |-> st.term, hdrs |-> st.hdrs, trls |-> st.trls, srecv |-> st.srecv,
+  [msgs |-> st.msgs, term |-> st.term, hdrs |-> st.hdrs, trls |-> st.trls, srecv |-> st.srecv, shdr |-> st.shdr,
    reqmd |-> IF st.ent /\ (st.cx = "no" \/ st.entAtCx) THEN (IF st.mdk = 0 THEN st.req ELSE 0) ELSE -2]
 
 ----------------------------------------------------------------------------
@@ -263,7 +273,8 @@ Legal(st, D) ==
   \cup
   \* ---- the handler on its own (the client may be blocked in recv / header / invoke)
   (IF live /\ srun THEN
-     (IF ~st.hsent THEN M(S("-", "sethdr")) \cup M(S("-", "sendhdr")) ELSE {})
+     M(S("-", "sethdr"))          \* at any point, also after the headers have gone out
+     \cup (IF ~st.hsent THEN M(S("-", "sendhdr")) ELSE {})
      \cup M(S("-", "settrl"))
      \cup R(S("-", "return"))
      \cup (IF Multi(shape) /\ st.pend = "recv" /\ Len(st.ssent) < D.maxs THEN V(S("-", "send")) ELSE {})
@@ -304,10 +315,10 @@ Legal(st, D) ==
      \* the handler goes on regardless, once it has certainly seen the end of its context
      \* (so that nothing here depends on what is still in flight)
      \cup (IF srun /\ st.waited /\ streamy THEN
-             \* (as before the end of the context: no SetHeader / SendHeader once the handler has
-             \*  had its headers written -- gRPC refuses those, the wrapper does not, the text of
-             \*  C13 says nothing about a server that ignores the refusal: not generated)
+             \* (no SendHeader once the handler has had its headers written, and after a deadline,
+             \*  where it is uncertain whether they were, no SetHeader either: not generated)
              (IF ~st.sfl THEN M(S("-", "sethdr")) \cup M(S("-", "sendhdr")) ELSE {}) \cup M(S("-", "settrl"))
+             \cup (IF st.sawCx THEN M(S("-", "sethdr")) ELSE {})     \* (after a seen cancellation: never visible)
              \cup (IF (Multi(shape) \/ (shape = "cstream" /\ st.resp = 0)) /\ Len(st.ssent) < D.maxs THEN V(S("-", "send")) ELSE {})
            ELSE {})
      \cup (IF streamy /\ ~st.term.has THEN {S("recv", "-")} ELSE {})
